@@ -293,6 +293,10 @@ pub enum Pick {
 pub struct ClientStream {
     pub conn: Conn,
     closed: bool,
+    /// timeout of the blocking `io::Read` implementation (simulated time)
+    pub read_timeout_ns: u64,
+    /// report a read timeout as `WouldBlock` (what tungstenite expects from a polled socket)
+    pub timeout_is_would_block: bool,
 }
 
 /// Open a connection from `from`. None when no listener can accept this family.
@@ -361,7 +365,7 @@ pub fn connect(from: SocketAddr, pick: Pick) -> Option<ClientStream> {
         w.wake();
     }
     engine::maybe_yield();
-    Some(ClientStream { conn, closed: false })
+    Some(ClientStream { conn, closed: false, read_timeout_ns: 30_000_000_000, timeout_is_would_block: false })
 }
 
 impl ClientStream {
@@ -492,7 +496,11 @@ impl Drop for ClientStream {
 
 impl io::Read for ClientStream {
     fn read(&mut self, buf: &mut [u8]) -> io::Result<usize> {
-        let v = ClientStream::read(self, buf.len(), 30_000_000_000)?;
+        let v = match ClientStream::read(self, buf.len(), self.read_timeout_ns) {
+            Ok(v) => v,
+            Err(e) if e.kind() == io::ErrorKind::TimedOut && self.timeout_is_would_block => return Err(io::ErrorKind::WouldBlock.into()),
+            Err(e) => return Err(e),
+        };
         buf[..v.len()].copy_from_slice(&v);
         Ok(v.len())
     }
